@@ -8,9 +8,9 @@ import (
 	"net/url"
 	"time"
 
-	"github.com/cnotch/ipchub/service/rtsp"
 	"github.com/cnotch/ipchub/media"
 	"github.com/cnotch/ipchub/network/websocket"
+	"github.com/cnotch/ipchub/service/rtsp"
 	"github.com/cnotch/ipchub/stats"
 	"github.com/cnotch/ipchub/zzverif/symapi"
 )
@@ -191,9 +191,14 @@ func VerifWspProcess() {
 		ctl.in = append(ctl.in, verifWrap("4", verifReq(rtsp.MethodPlay, "rtsp://h/live/a", "4", "")))
 		n++
 	}
-	if teardown {
-		ctl.in = append(ctl.in, verifWrap("5", verifReq(rtsp.MethodTeardown, "rtsp://h/live/a", "5", "")))
+	// (request numbers are consecutive: 1..n)
+	if play && symapi.Bool("pause") {
 		n++
+		ctl.in = append(ctl.in, verifWrap(string(rune('0'+n)), verifReq(rtsp.MethodPause, "rtsp://h/live/a", string(rune('0'+n)), "")))
+	}
+	if teardown {
+		n++
+		ctl.in = append(ctl.in, verifWrap(string(rune('0'+n)), verifReq(rtsp.MethodTeardown, "rtsp://h/live/a", string(rune('0'+n)), "")))
 	}
 	conns0 := stats.WspConns.GetSample().Active
 	s.process()
@@ -201,7 +206,11 @@ func VerifWspProcess() {
 	for i, m := range ctl.msgs {
 		ok, resp := verifWspReply(m)
 		symapi.Assert(ok && resp != nil, "message-is-one-whole-response")
-		symapi.Assert(resp.Header.Get(rtsp.FieldCSeq) == string(rune('1'+i)) || (teardown && i == n-1 && resp.Header.Get(rtsp.FieldCSeq) == "5"), "responses-in-request-order")
+		want := string(rune('1' + i))
+		if i >= 3 && !play {
+			want = string(rune('1' + n - 1)) // only the TEARDOWN follows the SETUP
+		}
+		symapi.Assert(resp.Header.Get(rtsp.FieldCSeq) == want, "responses-in-request-order")
 	}
 	symapi.Assert(src.ConsumerCount() == 0, "consumer-released")
 	_, still := svr.sessions.Load("77")
